@@ -125,11 +125,13 @@ def replay_cases(run, prop, cases_path, ncases, driver, spec, cfg, per_shard=50)
     """Replays TLC-emitted cases on the real code (sharded) and validates the recordings with a trace spec."""
     import pipelines
     shards = min(vk.NCPU, max(1, ncases // per_shard))
+    tag = os.path.basename(cases_path).split("-")[0]
+    tag = tag[:-1] if tag.endswith("s") else tag          # cases -> case, splitcases -> splitcase
 
     def job(i):
         def f():
-            path = os.path.join(run.work, "replay-%s-%d.ndjson" % (prop, i))
-            s = vk.run_driver(run, [driver, "--prop", prop, "--cases", cases_path, "--shard", str(i),
+            path = os.path.join(run.work, "replay-%s-%s-%d.ndjson" % (prop, tag, i))
+            s = vk.run_driver(run, [driver, "--prop", prop, "--tag", tag, "--cases", cases_path, "--shard", str(i),
                                     "--nshards", str(shards), "--out", path], path)
             r = vk.validate_trace(run, path, spec, cfg)
             r["summary"] = s
@@ -151,6 +153,7 @@ def replay_cases(run, prop, cases_path, ncases, driver, spec, cfg, per_shard=50)
 
 
 def emit_cases(run, prop, outs, name="cases"):
+    """name = <tag>s : the tag goes into the case labels (<prop>-<tag>-<k>) and names the case file."""
     cases_path = os.path.join(run.work, "%s-%s.ndjson" % (name, prop))
     n = 0
     seen = set()
@@ -285,7 +288,7 @@ def two_trees_model(run):
     import pipelines
     mt, pats = (4, "1, 6") if run.tier == "quick" else (5, "1, 3, 6, 7")
     out = vk.run_model(run, "TwoTrees", "TwoTrees.tla", TWO_TREES_CFG % (mt, pats), workers=8, heap="6g")
-    cases_path, n = emit_cases(run, "C15", [out], name="cases2")
+    cases_path, n = emit_cases(run, "C15", [out], name="case2s")
     run.extra["two_tree_model_bounds"] = dict(maxtips=mt, patterns=pats, second_trees=["cherry", "rooted3", "star3"])
     res = replay_cases(run, "C15", cases_path, n, "replay-edit", "TraceEdit.tla", pipelines.TRACE_CFG % ('"C15"', "TRUE"), per_shard=40)
     for r in res:
